@@ -12,6 +12,11 @@ package cl
 // C17, package-wide: a function that takes a sync lock itself has released it
 // again on every normal return path (directly or through a deferred call).
 //@ every-function cl lock-balance
+// C17, package-wide: a function that asks for the process-wide printer (slip.DefaultPrinter()) works on
+// a copy: it never stores through that pointer and never hands it to a function that stores to Printer
+// fields. Print settings a routine binds stay its own; what one routine prints cannot change what
+// another prints.
+//@ every-function cl shared-printer-kept
 
 // C07, package-wide: a function that evaluates Lisp forms itself forwards the
 // return-from / go marker an evaluation hands back: nothing more is evaluated
@@ -617,6 +622,15 @@ package cl
 //@   ensures forward-default: (!colon && !at && len(params) == 0) ==> c.argPos == old(c.argPos) + 1
 //@   ensures back-default: (colon && !at && len(params) == 0) ==> c.argPos == old(c.argPos) - 1
 //@   ensures absolute-default: (at && !colon && len(params) == 0) ==> c.argPos == 0
+// a move is not an access: any position from 0 up to and including the one just past the last argument
+// is a legal target (skipping the final argument, ~n@* to the end before ~@{ or ~#[), whatever the parameter
+//@ define legal_target(c, t) = 0 <= t && t <= len(c.args)
+//@   accepts forward-by-one: len(params) == 0 && !colon && !at && legal_target(c, c.argPos + 1)
+//@   accepts back-by-one: len(params) == 0 && colon && !at && legal_target(c, c.argPos - 1)
+//@   accepts to-the-first: len(params) == 0 && at && !colon
+//@   accepts forward-by-n: len(params) > 0 && is(params[0], int) && !colon && !at && legal_target(c, c.argPos + as(params[0], int))
+//@   accepts back-by-n: len(params) > 0 && is(params[0], int) && colon && !at && legal_target(c, c.argPos - as(params[0], int))
+//@   accepts to-the-nth: len(params) > 0 && is(params[0], int) && at && !colon && legal_target(c, as(params[0], int))
 
 // ~P: looks at the previous argument with :, consumes one otherwise; writes
 // nothing for 1, "s" otherwise ("y" / "ies" with @).
